@@ -28,5 +28,5 @@ with open('/verif/.build/cover/merged.out','w') as o:
 PY
 export GOFLAGS=-mod=mod GOPROXY=off GOSUMDB=off GOTOOLCHAIN=local
 (cd harness && go tool cover -func=/verif/.build/cover/merged.out > /verif/.build/cover/func.txt)
-grep -v "_verif.go\|/pb/\|\.pb\.go\|/mock" /verif/.build/cover/func.txt | awk '$NF+0 < 100.0' | sort -t: -k1,1 | column -t | head -400
+grep -v "_verif.go\|/pb/\|\.pb\.go\|/mock" /verif/.build/cover/func.txt | awk '$NF+0 < 100.0' | sort -t: -k1,1 | head -400
 tail -1 /verif/.build/cover/func.txt
